@@ -97,7 +97,8 @@ Qed.
 (* ---------------- kinds: what the analysis can see of a value ---------------- *)
 Definition kind (v : val) : N :=
   match v with
-  | VNone | VInt _ | VStr _ => 0
+  | VNone | VInt _ => 0
+  | VStr _ => 6
   | VList _ => if deep_is_literal v then 1 else 5
   | VCol _ _ => 2
   | VTab _ => 3
